@@ -84,6 +84,19 @@ Splits == UNION { { [base |-> b, files |-> Split1(Bases[b], S, mp), inject |-> "
                                      S2 \in {S2 \in SUBSET S : S2 # {} /\ S2 # S /\ Closed(Bases[b], S2)},
                                      mp \in {<<"m1">>, <<"d1", "m2">>} } :
                                 S \in {S \in SUBSET (1..Len(Bases[b])) : Cardinality(S) >= 2 /\ Closed(Bases[b], S)} } : b \in 1..2 }
+(* two sibling modules that share their base name in different directories *)
+RootTwo(base, S1, S2, p1, p2) ==
+    Flat([i \in 1..Len(base) |-> IF i = MinOf(S1) THEN <<Mod(p1)>> ELSE IF i = MinOf(S2) THEN <<Mod(p2)>>
+                                   ELSE IF i \in S1 \cup S2 THEN <<>> ELSE <<base[i]>>])
+SplitTwo(base, S1, S2, p1, p2) ==
+    [p \in {<<"main">>, p1, p2} |-> IF p = <<"main">> THEN RootTwo(base, S1, S2, p1, p2)
+                                    ELSE IF p = p1 THEN Sub(base, S1) ELSE Sub(base, S2)]
+(* S2 may use what S1 declares only if S1 is imported first *)
+ClosedAfter(base, S1, S2) == \A i \in S2 : \A n \in DeclRefs(base[i]) : TypeIdx(base, n) \subseteq S2
+SplitsTwo == UNION { UNION { { [base |-> b, files |-> SplitTwo(Bases[b], S1, S2, <<"pa", "types">>, <<"pb", "types">>),
+                                inject |-> "none", where |-> <<>>] :
+                                  S2 \in {S2 \in SUBSET ((1..Len(Bases[b])) \ S1) : S2 # {} /\ ClosedAfter(Bases[b], S1, S2)} } :
+                             S1 \in {S1 \in SUBSET (1..Len(Bases[b])) : S1 # {} /\ Cardinality(S1) <= 2 /\ Closed(Bases[b], S1)} } : b \in 1..2 }
 ValidSplit(sp) == \A p \in DOMAIN sp.files : sp.files[p] # <<>>
 
 (* error injection into one module file *)
